@@ -229,11 +229,9 @@ func writeExpr(b *strings.Builder, e Expr, st PrintStyle) {
 		// left-associative: left child may have equal precedence, right child must bind tighter
 		lp, rp := p, p+1
 		if e.Op == "?:" {
-			// ?: shares its level with the ternary; parenthesise a ternary on either side
-			lp, rp = 2, 2
-			if l, ok := e.L.(*Binary); ok && l.Op == "?:" {
-				lp = 1
-			}
+			// ?: shares its level with the ternary and groups to the right: whatever is on its right belongs to
+			// it, and a ?: or a ternary on its left needs parentheses
+			lp, rp = 2, 1
 		}
 		writeChild(b, e.L, lp, st)
 		s := sp(st)
@@ -247,16 +245,13 @@ func writeExpr(b *strings.Builder, e Expr, st PrintStyle) {
 		// a tight binary minus followed by a negative literal would still lex fine ("1--1"), keep it
 		writeChild(b, e.R, rp, st)
 	case *Tern:
+		// the condition binds tighter than the level of ?: and the ternary; the other two operands are whole
+		// expressions (a ternary or a ?: between ? and :, or after the :, needs no parentheses)
 		writeChild(b, e.C, 2, st)
 		b.WriteString(" ? ")
-		writeChild(b, e.A, 2, st)
+		writeExpr(b, e.A, st)
 		b.WriteString(" : ")
-		// right-associative: a ternary in the else branch needs no parentheses
-		if _, ok := e.B.(*Tern); ok {
-			writeExpr(b, e.B, st)
-		} else {
-			writeChild(b, e.B, 2, st)
-		}
+		writeExpr(b, e.B, st)
 	case *Call:
 		b.WriteString(e.Fn + "(")
 		for i, a := range e.Args {
